@@ -1,6 +1,7 @@
 (* C17 — Oracle price averaging is exact and activates only on a full window.
    Property theorems only; each is closed by [exact] of a lemma proved in Proofs/. *)
-From Comdex Require Import Lib.Base Model.Market Proofs.MarketProofs Proofs.MarketBlock.
+From Comdex Require Import Lib.Base Model.Market Proofs.MarketProofs Proofs.MarketBlock
+  Model.BandOracle Proofs.BandOracleProofs.
 
 (* [ops] is any finite history of what reaches one asset's record: samples (height, rate) with
    any rates including 0 and 2^64-1, discard resets and validation failures, in any order.
@@ -138,3 +139,239 @@ Proof. eexists. vm_compute. repeat split. Qed.
 Example c17_nonvacuous_n1 :
   exists tw, mrun 1 10 None [Sample 20 5; Sample 40 7] = Ok (Some tw) /\ active tw = true /\ avg tw = 7.
 Proof. eexists. vm_compute. repeat split. Qed.
+
+(* ==================================================================================== *)
+(* The whole pipeline, block after block (Model/BandOracle.v): bandoracle.BeginBlocker then
+   market.BeginBlocker, the IBC callbacks (Ack / Result), the fetch-price proposal (Register) and
+   asset registration.  [ops] is any finite history of those; [prun_g] threads the model state and
+   the observer [gs] (per asset: the positive samples delivered since the last wipe of its window,
+   where a wipe is the band-level discard, the per-record gap restart, or a registration).
+   [op_typed]: the TwaBatchSize of a proposal is a uint64 (>= 0). *)
+
+(* no block of any history panics; every reachable state satisfies the pipeline invariant
+   (ring invariant + "active => avg = mean" for every asset, discard flag consumed in the block
+   that raises it, a registered configuration has N >= 1) *)
+Theorem c17_pipe_no_panic : forall ops, Forall op_typed ops ->
+  exists p gs, prun_g pinit [] ops = Ok (p, gs) /\ PInv p gs /\ AssetsOk (p_assets p).
+Proof. exact reachable_inv. Qed.
+Print Assumptions c17_pipe_no_panic.
+
+(* an active price is always the integer mean of N positive samples that were all delivered after
+   the last wipe of that asset's window (and after the last registration) *)
+Theorem c17_pipe_active_mean : forall ops p gs id tw, Forall op_typed ops ->
+  prun_g pinit [] ops = Ok (p, gs) ->
+  sget (p_store p) id = Some tw -> active tw = true ->
+  let n := f_n (b_msg (p_band p)) in
+  let hist := g_hist (gget gs id) in
+  1 <= n /\ zlen hist >= n /\ Forall (fun x => x > 0) hist /\
+  zlen (vals tw) = n /\ 0 <= idx tw < n /\ avg tw = zsum (firstn (Z.to_nat n) hist) / n.
+Proof.
+  intros ops p gs id tw Ht Hr Hg Ha.
+  destruct (prun_g_inv ops pinit [] Ht pinv_init) as (p' & gs' & Hr' & HP).
+  rewrite Hr in Hr'. injection Hr' as <- <-.
+  exact (pinv_active p gs id tw HP Hg Ha).
+Qed.
+Print Assumptions c17_pipe_active_mean.
+
+(* the boolean the runner evaluates on the implementation's records is exactly the invariant, and
+   every record of every reachable model state satisfies it *)
+Theorem c17_pipe_predicate : forall ops p gs id, Forall op_typed ops ->
+  prun_g pinit [] ops = Ok (p, gs) ->
+  holds_C17_pipe (f_n (b_msg (p_band p))) (gget gs id) (sget (p_store p) id) = true.
+Proof.
+  intros ops p gs id Ht Hr.
+  destruct (prun_g_inv ops pinit [] Ht pinv_init) as (p' & gs' & Hr' & HP).
+  rewrite Hr in Hr'. injection Hr' as <- <-.
+  apply holds_pipe_iff. destruct HP as (_ & _ & _ & HI & _). apply HI.
+Qed.
+Print Assumptions c17_pipe_predicate.
+
+(* (re-)registration: no Twa record of the old configuration survives, the observer restarts, the
+   discard data is reset; a proposal with TwaBatchSize = 0 changes nothing *)
+Theorem c17_pipe_register_wipes : forall p gs h m, f_n m <> 0 ->
+  exists p', pstep p (Register h m) = Ok p' /\ p_store p' = [] /\ pghost p gs (Register h m) = [] /\
+    b_msg (p_band p') = m /\ b_block (p_band p') = h /\ b_check (p_band p') = false /\
+    b_dheight (p_band p') = -1 /\ b_dbool (p_band p') = false /\ p_assets p' = p_assets p.
+Proof. exact register_effect. Qed.
+Print Assumptions c17_pipe_register_wipes.
+
+Theorem c17_pipe_register_zero_rejected : forall p gs h m, f_n m = 0 ->
+  pstep p (Register h m) = Ok p /\ pghost p gs (Register h m) = gs.
+Proof. intros p gs h m H. cbn [pstep pghost]. rewrite H. split; reflexivity. Qed.
+Print Assumptions c17_pipe_register_zero_rejected.
+
+(* the outage boundary the code uses.  From a state whose last check was answered (discard height
+   < 0, no new acknowledgement since): the check at h0 is silent, [mid] holds any further blocks and
+   arriving results but no acknowledgement, then request r is acknowledged, [post] holds results and
+   blocks that are not checks, and h1 is the next check.  Then the band hook at h1 validates, resets
+   the discard height and raises the discard flag IFF h1 - h0 >= AcceptedHeightDiff (h0 = the first
+   silent check, h1 = the first answered check; the last consumed sample is 20 blocks older). *)
+Theorem c17_band_outage_boundary : forall p h0 mid r post h1,
+  b_block (p_band p) <> 0 -> b_check (p_band p) = true -> b_dheight (p_band p) < 0 ->
+  b_last (p_band p) = b_temp (p_band p) -> b_dbool (p_band p) = false ->
+  0 < h0 -> h0 mod 20 = 0 -> h1 mod 20 = 0 ->
+  Forall silent_op mid -> Forall quiet_op post -> r <> b_last (p_band p) ->
+  exists p1, prun p (Block h0 :: mid ++ Ack r :: post) = Ok p1 /\
+    b_dheight (p_band p1) = h0 /\ b_valid (p_band p1) = false /\
+    let b' := band_begin_block h1 (p_band p1) in
+    b_valid b' = true /\ b_dheight b' = -1 /\
+    b_dbool b' = (h1 - h0 >=? f_gap (b_msg (p_band p))).
+Proof.
+  intros p h0 mid r post h1 Hb Hc Hd Hl Hdb Hh Hm0 Hm1 Hmid Hpost Hr.
+  destruct (outage_run p h0 mid r post Hb Hc Hd Hl Hdb Hh Hm0 Hmid Hpost Hr) as (p1 & Hr1 & HPend).
+  exists p1. split; [exact Hr1|].
+  destruct (pending_check h0 _ _ r h1 (p_band p1) Hh Hr Hm1 HPend) as (Hv & Hdh & Hdbool & _).
+  destruct HPend as (_ & _ & H3 & _ & _ & H6 & _).
+  split; [exact H3|]. split; [exact H6|]. cbv zeta. auto.
+Qed.
+Print Assumptions c17_band_outage_boundary.
+
+(* ... and on the pipeline: the block at h1 delivers a DiscardReset to EVERY stored record before
+   any sample when h1 - h0 >= AcceptedHeightDiff (none otherwise); every window that existed is
+   then left with at most the one sample of this block, and for N >= 2 its price is inactive *)
+Theorem c17_pipe_outage_wipes : forall p gs h0 mid r post h1,
+  PInv p gs -> AssetsOk (p_assets p) ->
+  b_block (p_band p) <> 0 -> b_check (p_band p) = true -> b_dheight (p_band p) < 0 ->
+  b_last (p_band p) = b_temp (p_band p) ->
+  0 < h0 -> h0 mod 20 = 0 -> h1 mod 20 = 0 ->
+  Forall silent_op mid -> Forall quiet_op post -> r <> b_last (p_band p) ->
+  let m := b_msg (p_band p) in
+  exists p1 gs1 p2,
+    prun_g p gs (Block h0 :: mid ++ Ack r :: post) = Ok (p1, gs1) /\
+    b_dheight (p_band p1) = h0 /\ b_valid (p_band p1) = false /\
+    pstep p1 (Block h1) = Ok p2 /\ PInv p2 (pghost p1 gs1 (Block h1)) /\
+    b_msg (p_band p2) = m /\ b_valid (p_band p2) = true /\ b_dheight (p_band p2) = -1 /\
+    block_ops h1 p1 =
+      (if h1 - h0 >=? f_gap m then map (fun id => (id, DiscardReset)) (map fst (p_store p1)) else [])
+      ++ bb_samples h1 (lookup_result (b_results (p_band p1)) r) (p_assets p1) (-1) /\
+    (h1 - h0 >= f_gap m -> forall id, sget (p_store p1) id <> None ->
+       (length (g_hist (gget (pghost p1 gs1 (Block h1)) id)) <= 1)%nat /\
+       (2 <= f_n m -> forall tw, sget (p_store p2) id = Some tw -> active tw = false)).
+Proof. exact outage_pipeline. Qed.
+Print Assumptions c17_pipe_outage_wipes.
+
+(* ---- non-vacuity: concrete block histories (N = 2, AcceptedHeightDiff = 40) ---- *)
+Definition ex_warm : list pop :=
+  [AddAsset true; Register 1 (mkFmsg 7 2 40); Block 20;
+   Ack 1; Result 1 [1000000]; Block 40; Ack 2; Result 2 [3000000]; Block 60].
+
+Definition ex_price (ops : list pop) : option (bool * Z * list Z) :=
+  match prun_g pinit [] ops with
+  | Ok (p, _) => match sget (p_store p) 1 with
+                 | Some tw => Some (active tw, avg tw, vals tw)
+                 | None => None end
+  | _ => None
+  end.
+
+(* the warm state meets the hypotheses of the outage theorems *)
+Example c17_pipe_outage_hyps :
+  exists p gs, prun_g pinit [] ex_warm = Ok (p, gs) /\
+    b_block (p_band p) <> 0 /\ b_check (p_band p) = true /\ b_dheight (p_band p) < 0 /\
+    b_last (p_band p) = b_temp (p_band p) /\ b_dbool (p_band p) = false /\
+    ex_price ex_warm = Some (true, 2000000, [1000000; 3000000]).
+Proof. eexists _, _. split; [vm_compute; reflexivity|]. vm_compute. repeat split; congruence. Qed.
+
+(* outage of AcceptedHeightDiff - 20 (silent at 80, answered at 100): window kept, mean(5, 3) *)
+Example c17_pipe_outage_short :
+  ex_price (ex_warm ++ [Block 80; Ack 3; Result 3 [5000000]; Block 100])
+  = Some (true, 4000000, [5000000; 3000000]).
+Proof. vm_compute. reflexivity. Qed.
+
+(* outage of exactly AcceptedHeightDiff (silent at 80 and 100, answered at 120): the window is
+   wiped, one fresh sample does not activate, the second publishes the mean of the two fresh ones *)
+Example c17_pipe_outage_exact :
+  ex_price (ex_warm ++ [Block 80; Block 100; Ack 3; Result 3 [9000000]; Block 120])
+  = Some (false, 2000000, [9000000]) /\
+  ex_price (ex_warm ++ [Block 80; Block 100; Ack 3; Result 3 [9000000]; Block 120;
+                        Ack 4; Result 4 [11000000]; Block 140])
+  = Some (true, 10000000, [9000000; 11000000]).
+Proof. vm_compute. split; reflexivity. Qed.
+
+(* outage of AcceptedHeightDiff + 20 *)
+Example c17_pipe_outage_long :
+  ex_price (ex_warm ++ [Block 80; Block 100; Block 120; Ack 3; Result 3 [9000000]; Block 140])
+  = Some (false, 2000000, [9000000]).
+Proof. vm_compute. reflexivity. Qed.
+
+(* while the oracle is silent the price is inactive (consumers get an error) *)
+Example c17_pipe_silent_inactive :
+  ex_price (ex_warm ++ [Block 80]) = Some (false, 2000000, [1000000; 3000000]).
+Proof. vm_compute. reflexivity. Qed.
+
+(* re-registration of the same script with a larger window: nothing survives; three fresh samples
+   are needed and the first published value is their mean *)
+Example c17_pipe_reregistration :
+  ex_price (ex_warm ++ [Register 70 (mkFmsg 7 3 40)]) = None /\
+  ex_price (ex_warm ++ [Register 70 (mkFmsg 7 3 40); Block 80; Ack 3; Result 3 [3000000]; Block 100;
+                        Ack 4; Result 4 [4000000]; Block 120])
+  = Some (false, 0, [3000000; 4000000]) /\
+  ex_price (ex_warm ++ [Register 70 (mkFmsg 7 3 40); Block 80; Ack 3; Result 3 [3000000]; Block 100;
+                        Ack 4; Result 4 [4000000]; Block 120; Ack 5; Result 5 [8000000]; Block 140])
+  = Some (true, 5000000, [3000000; 4000000; 8000000]).
+Proof. vm_compute. repeat split; reflexivity. Qed.
+
+(* ==================================================================================== *)
+(* C17-F4 (known finding, reproduced on the real keepers): is every delivered sample fresh?
+   [prun_f] threads, from the inputs alone, the request ids whose result has been delivered to the
+   windows ([cons]) and the acknowledged ids; [acks_ok]: Band's request ids are unique and non-zero.
+   Refuted: the first check after a check-flag reset (registration, or AddAssetRecords /
+   UpdateAssetRecords of a price-requiring asset) sets TempFetchPriceID to 0, so the next check
+   takes the last acknowledged request for a new one even when it was consumed long ago.  In the
+   witness (N = 1, AcceptedHeightDiff = 40) the oracle is silent from block 60 on, an asset is added
+   at 100, and the check at 140 ends the "outage" (140 - 80 >= 40: every window is wiped) by
+   re-delivering the result consumed at 60: the price is active again with the pre-outage value
+   although no result has arrived. *)
+Definition ex_stale : list pop :=
+  [AddAsset true; Register 1 (mkFmsg 7 1 40); Block 20; Ack 1; Result 1 [1000000]; Block 40;
+   Ack 2; Result 2 [3000000]; Block 60; Block 80; Block 100; AddAsset true; Block 120].
+
+Theorem c17_pipe_fresh_refuted : exists p cons acked p' tw,
+  acks_ok [] ex_stale /\ Forall op_typed ex_stale /\
+  prun_f pinit [] [] ex_stale = Ok (p, cons, acked) /\
+  b_dheight (p_band p) = 80 /\ b_valid (p_band p) = false /\
+  delivered_id 140 (band_begin_block 140 (p_band p)) = Some 2 /\ cons = [2; 1] /\
+  holds_C17_fresh cons (delivered_id 140 (band_begin_block 140 (p_band p))) = false /\
+  kf_C17_4 p cons (Block 140) = true /\
+  b_dbool (band_begin_block 140 (p_band p)) = true /\
+  pstep p (Block 140) = Ok p' /\ sget (p_store p') 1 = Some tw /\
+  active tw = true /\ avg tw = 3000000 /\ vals tw = [3000000].
+Proof.
+  eexists _, _, _, _, _. split.
+  { cbn. intuition (try discriminate). }
+  split; [repeat constructor; cbn; lia|].
+  split; [vm_compute; reflexivity|]. vm_compute. repeat split; reflexivity.
+Qed.
+Print Assumptions c17_pipe_fresh_refuted.
+
+(* outside the class every delivered result is new; and a second delivery happens ONLY at the
+   check that follows such a "first check" (TempFetchPriceID = 0) *)
+Theorem c17_pipe_fresh : forall ops p cons acked h, acks_ok [] ops ->
+  prun_f pinit [] [] ops = Ok (p, cons, acked) ->
+  kf_C17_4 p cons (Block h) = false ->
+  holds_C17_fresh cons (delivered_id h (band_begin_block h (p_band p))) = true.
+Proof.
+  intros ops p cons acked h Ha Hr Hk.
+  exact (fresh_outside_kf p cons acked h (prun_f_inv ops _ _ _ _ _ _ Ha finv_init Hr) Hk).
+Qed.
+Print Assumptions c17_pipe_fresh.
+
+Theorem c17_pipe_redelivery_only_after_reset : forall ops p cons acked h r, acks_ok [] ops ->
+  prun_f pinit [] [] ops = Ok (p, cons, acked) ->
+  delivered_id h (band_begin_block h (p_band p)) = Some r -> zmem r cons = true ->
+  b_temp (p_band p) = 0 /\ b_check (p_band p) = true.
+Proof.
+  intros ops p cons acked h r Ha Hr Hd Hz.
+  exact (redelivery_only_after_reset p cons acked h r (prun_f_inv ops _ _ _ _ _ _ Ha finv_init Hr) Hd Hz).
+Qed.
+Print Assumptions c17_pipe_redelivery_only_after_reset.
+
+(* non-vacuity of c17_pipe_fresh: in the warm history every check delivers a new result *)
+Example c17_pipe_fresh_nonvacuous : exists p cons acked,
+  acks_ok [] (ex_warm ++ [Ack 3; Result 3 [5]]) /\
+  prun_f pinit [] [] (ex_warm ++ [Ack 3; Result 3 [5]]) = Ok (p, cons, acked) /\
+  kf_C17_4 p cons (Block 80) = false /\
+  delivered_id 80 (band_begin_block 80 (p_band p)) = Some 3 /\ cons = [2; 1].
+Proof.
+  eexists _, _, _. split; [cbn; intuition (try discriminate)|].
+  split; [vm_compute; reflexivity|]. vm_compute. repeat split; reflexivity.
+Qed.
